@@ -133,6 +133,23 @@ func scenCCH(s *sched.Sim, cfg Config, res *Result) {
 			res.Probe("cch.same-selection-other-operation-type")
 		}
 	}
+	// one document holding two operations, requested under either name (and once more, repeated)
+	{
+		o1 := gql.GenOp(s.T, w, w.Union, ast.Query, gql.OpFeatures{Aliases: true, ExplicitID: true, Typename: true}, 3, 8)
+		o2 := gql.GenOp(s.T, w, w.Union, ast.Query, gql.OpFeatures{Aliases: true, ExplicitID: true}, 3, 8)
+		b1, b2 := o1.Text, o2.Text
+		if i := strings.Index(b1, "{"); i >= 0 {
+			b1 = b1[i:]
+		}
+		if i := strings.Index(b2, "{"); i >= 0 {
+			b2 = b2[i:]
+		}
+		doc := "query DocA " + b1 + "\nquery DocB " + b2
+		na, nb := "DocA", "DocB"
+		add("D-opA", clientReq{Query: doc, OperationName: &na})
+		add("D-opB", clientReq{Query: doc, OperationName: &nb})
+		res.Probe("cch.one-document-two-operation-names")
+	}
 	for i := 0; i < 2; i++ {
 		kind := ast.Query
 		if s.T.Bool(1, 3) {
